@@ -21,17 +21,20 @@ type ConnSpec struct {
 
 // Step is one element of a sequential program.
 type Step struct {
-	Conn    int      `json:"conn,omitempty"`
-	Op      *wire.Op `json:"op,omitempty"`
-	Advance int64    `json:"advance_s,omitempty"` // move the clock by this many seconds
-	Evict   []string `json:"evict,omitempty"`     // drop these keys from L1 ("*" = all)
-	CloseAt int      `json:"close_at,omitempty"`  // C15: client closes after this many bytes of Op (−1: before any)
+	Conn    int       `json:"conn,omitempty"`
+	Op      *wire.Op  `json:"op,omitempty"`
+	Pipe    []wire.Op `json:"pipe,omitempty"`      // several requests sent as one byte stream
+	Advance int64     `json:"advance_s,omitempty"` // move the clock by this many seconds
+	Evict   []string  `json:"evict,omitempty"`     // drop these keys from L1 ("*" = all)
+	CloseAt int       `json:"close_at,omitempty"`  // C15: client closes after this many bytes of Op (−1: before any)
 }
 
 func (s Step) String() string {
 	switch {
 	case s.Op != nil:
 		return fmt.Sprintf("c%d: %s", s.Conn, s.Op)
+	case len(s.Pipe) > 0:
+		return fmt.Sprintf("c%d: pipeline of %d", s.Conn, len(s.Pipe))
 	case s.Advance != 0:
 		return fmt.Sprintf("advance %ds", s.Advance)
 	case s.Evict != nil:
@@ -79,18 +82,18 @@ func (v *Violation) Error() string {
 
 // Result is what one execution reports.
 type Result struct {
-	V         *Violation        `json:"violation,omitempty"`
-	Trace     []kernel.Choice   `json:"trace,omitempty"`
-	Diverged  string            `json:"diverged,omitempty"`
-	KSteps    int               `json:"ksteps"`
-	SimMs     int64             `json:"sim_ms"`
-	Probes    map[string]int    `json:"probes,omitempty"`
-	Fired     map[string]int    `json:"fired,omitempty"`
-	States    []uint64          `json:"-"`
-	SchedHash uint64            `json:"sched_hash"`
-	Trivial   bool              `json:"trivial,omitempty"`
-	Infra     string            `json:"infra,omitempty"` // simulator trouble (never a violation)
-	Log       []string          `json:"log,omitempty"`
+	V         *Violation      `json:"violation,omitempty"`
+	Trace     []kernel.Choice `json:"trace,omitempty"`
+	Diverged  string          `json:"diverged,omitempty"`
+	KSteps    int             `json:"ksteps"`
+	SimMs     int64           `json:"sim_ms"`
+	Probes    map[string]int  `json:"probes,omitempty"`
+	Fired     map[string]int  `json:"fired,omitempty"`
+	States    []uint64        `json:"-"`
+	SchedHash uint64          `json:"sched_hash"`
+	Trivial   bool            `json:"trivial,omitempty"`
+	Infra     string          `json:"infra,omitempty"` // simulator trouble (never a violation)
+	Log       []string        `json:"log,omitempty"`
 }
 
 func (r *Result) probe(name string) {
